@@ -85,8 +85,9 @@ ENERGY = ('arias', 'isv', 'uke')
 ACC_BASED = ('arias', 'cav', 'abs_acc')
 
 
-def definition(ctx, n, which, dt=None):
-    a = ctx.arr('a', n, -100.0, 100.0)
+def definition(ctx, n, which, dt=None, kind='f'):
+    # kind 'i': an integer-dtype record (digitiser counts, a list of Python ints) is a record like any other
+    a = ctx.iarr('a', n, -100, 100) if kind == 'i' else ctx.arr('a', n, -100.0, 100.0)
     dt = _dt(ctx, dt)
     asig = ctx.lib.AccSignal(a, dt)
     ser = _measure(ctx, asig, which)
@@ -210,6 +211,9 @@ def obligations(tier, seed):
             else:
                 for al in (-2.5, 0.25):
                     yield Ob('scaling', {'n': n, 'which': which, 'dt': 0.01, 'alpha': al}, query_ms=60000)
+    for which in ALL_MEASURES:
+        for n in ((3,) if q else (3, 5)):
+            yield Ob('definition', {'n': n, 'which': which, 'dt': 0.01, 'kind': 'i'}, query_ms=60000)
     for first in ALL_MEASURES:
         for n in ((3,) if q else (3, 6)):
             yield Ob('same_object', {'n': n, 'first': first}, query_ms=60000)
